@@ -147,6 +147,10 @@ def run(ctx):
                  % (lines[:8], desc or "none"),
                  sample={"rule": "LOOP-PROGRESS", "fn": fn.name[-60:], "progress": desc})
     R.floor("hand_written_loops_in_request_reachable_code", n_hand, 4)
+    # a deadlock is a request that never returns and wedges the write path: the lock discipline (no re-entry, acyclic order,
+    # no guard across await) is part of "no request can hang"
+    import c11
+    c11.rules(R, F, CG)
     return R
 
 
